@@ -58,7 +58,14 @@ func verifHarness_C16_resource() {
 		verifC16Uses["Nothing"] = bogus
 	}
 	r := New()
-	k := verifCatch(func() { r.Resource(base, ctl) })
+	// resource-level middleware, in a slice with spare capacity in half of the configurations
+	var groupIDs []int
+	var groupMws []HandlerFunc
+	if ng := (cfg / 5376) % 3; ng > 0 {
+		hs, ids := v.mk(&next, ng, 3)
+		groupMws, groupIDs = hs, ids
+	}
+	k := verifCatch(func() { r.Resource(base, ctl, groupMws...) })
 	verifAssert(k == "", "a pointer-to-struct controller is accepted")
 
 	// (1) exactly the documented (method, path, name) triples of the implemented actions
@@ -79,7 +86,7 @@ func verifHarness_C16_resource() {
 		}
 		okTable = verifAnd(okTable, rt.Path() == res+a.suffix && verifSameStrings(rt.Methods(), a.methods))
 		// (3) per-action middleware only on its own action
-		okTable = verifAnd(okTable, verifSameInts(v.of(rt.Handlers()), usesIDs[a.name]))
+		okTable = verifAnd(okTable, verifSameInts(v.of(rt.Handlers()), verifCat(groupIDs, usesIDs[a.name])))
 		defs = append(defs, verifRouteDef{res + a.suffix, a.methods})
 		acts = append(acts, a.name)
 	}
